@@ -1,5 +1,6 @@
 // Generators of small tissues (several cells of mixed classes that overlap, touch, nest or stay apart).
 #pragma once
+#include <cstring>
 #include "celltools.hpp"
 #include "engine.hpp"
 #include "meshgen.hpp"
@@ -162,10 +163,28 @@ inline std::shared_ptr<cell_type_parameters> class_type(int cls, double repulsio
 inline Built build(const Tissue& t, double repulsion = 10., double adhesion = 1., ct::CellScope* scope = nullptr) {
     Built b;
     std::map<int, std::shared_ptr<cell_type_parameters>> types;
+    uint64_t id_state = 0;
+    unsigned id_next = 0;
     for (size_t i = 0; i < t.cells.size(); i++) {
         int cls = t.cells[i].cls;
         if (!types.count(cls)) types[cls] = class_type(cls, repulsion, adhesion);
-        cell_ptr c = ct::make_cell_of_class(cls, t.cells[i].mesh, (unsigned)i, types[cls]);
+        // persistent ids: in a run they only equal the positions in the list until the first removal or division; afterwards they are larger
+        // (fresh ids are handed out in increasing order and removals keep the order). Two thirds of the tissues get such ids, derived from
+        // the content of the case so that case files need no extra field.
+        if (i == 0) {
+            uint64_t h = 1469598103934665603ull;
+            for (size_t q = 0; q < t.cells[0].mesh.xyz.size() && q < 6; q++) {
+                uint64_t b;
+                memcpy(&b, &t.cells[0].mesh.xyz[q], 8);
+                h = (h ^ b) * 1099511628211ull;
+            }
+            id_state = h ^ (h >> 31);
+            id_next = (id_state % 3 == 0) ? 0 : (unsigned)((id_state >> 8) % 5);
+        } else if (id_state % 3 != 0) {
+            id_state = id_state * 6364136223846793005ull + 1442695040888963407ull;
+            id_next += (unsigned)((id_state >> 40) % 3);
+        }
+        cell_ptr c = ct::make_cell_of_class(cls, t.cells[i].mesh, id_next++, types[cls]);
         c->set_local_id((unsigned)i);
         b.cells.push_back(c);
         if (scope) scope->add(c);
